@@ -14,8 +14,8 @@ Open Scope Z_scope.
 (* what one round trip of the base transport yields *)
 Inductive outcome :=
 | OStatus (code : Z) (retry_after : str) (chal : N)  (* chal: 0 none, 1 Basic, 2 Bearer, 3 unknown scheme *)
-| OTimeout                                           (* net.Error with Timeout() = true *)
-| OOtherErr                                          (* any other transport error *)
+| OErr (is_net timeout temporary : bool)             (* a transport error: does the error value implement
+                                                        net.Error, and what do Timeout()/Temporary() report *)
 | OCanceled                                          (* context.Canceled from the base transport *)
 | ODeadline.                                         (* context.DeadlineExceeded (a net.Error with Timeout() = true) *)
 
@@ -27,12 +27,37 @@ Record beh := mkBeh {
 
 Inductive pred_result := PRetry | PStop | PFail.
 
-(* DefaultPredicate; the status-code branch is Generated.GC17.default_predicate_status *)
+(* how the transport errors look to a predicate *)
+Definition err_flags (o : outcome) : option (bool * bool * bool) :=
+  match o with
+  | OStatus _ _ _ => None
+  | OErr ne to tmp => Some (ne, to, tmp)
+  | OCanceled => Some (false, false, false)     (* context.Canceled: a plain error *)
+  | ODeadline => Some (true, true, true)        (* context.DeadlineExceeded: Timeout() and Temporary() *)
+  end.
+
+(* DefaultPredicate; both branches are generated: Generated.GC17.default_predicate_status
+   and Generated.GC17.default_predicate_error *)
 Definition default_predicate (o : outcome) : pred_result :=
   match o with
   | OStatus c _ _ => if default_predicate_status c then PRetry else PStop
-  | OTimeout | ODeadline => PRetry
-  | OOtherErr | OCanceled => PFail
+  | _ => match err_flags o with
+         | Some (ne, to, tmp) => if default_predicate_error ne to tmp then PRetry else PFail
+         | None => PFail
+         end
+  end.
+
+(* the custom predicates of the harness: a table on status codes, one rule for the other
+   statuses, one rule for transport errors *)
+Fixpoint lookup_status (tbl : list (Z * pred_result)) (c : Z) : option pred_result :=
+  match tbl with
+  | [] => None
+  | (k, r) :: tbl' => if k =? c then Some r else lookup_status tbl' c
+  end.
+Definition custom_predicate (tbl : list (Z * pred_result)) (dflt err : pred_result) (o : outcome) : pred_result :=
+  match o with
+  | OStatus c _ _ => match lookup_status tbl c with Some r => r | None => dflt end
+  | _ => err
   end.
 
 Inductive bres := BRet (d : Z) | BPanic.
@@ -189,7 +214,8 @@ Inductive event :=
 
 Inductive result :=
 | RResp (code : Z) (chal : N)
-| RErrTimeout | RErrOther
+| RErr (is_net timeout temporary : bool)   (* the transport's error *)
+| RPredErr                (* the error a predicate returned for a response *)
 | RCtx                    (* the context's error *)
 | RPanic                  (* the policy panicked *)
 | RNotRewindable | RGetBodyFailed   (* auth.rewindRequestBody errors *)
@@ -198,10 +224,14 @@ Inductive result :=
 Definition result_of_outcome (o : outcome) : result :=
   match o with
   | OStatus c _ ch => RResp c ch
-  | OTimeout => RErrTimeout
-  | OOtherErr => RErrOther
+  | OErr ne to tmp => RErr ne to tmp
   | OCanceled | ODeadline => RCtx
   end.
+
+(* what RoundTrip returns when the predicate returned an error: the predicates considered
+   hand back the transport's error, or an error of their own for a response *)
+Definition fail_result (o : outcome) : result :=
+  match o with OStatus _ _ _ => RPredErr | _ => result_of_outcome o end.
 
 (* cancellation: the context ends at time tc (is_deadline: DeadlineExceeded instead of Canceled) *)
 Definition cancel := option (Z * bool).
@@ -248,7 +278,7 @@ Definition rt_step (p : policy) (cn : cancel) (bd : body)
   let stop := Done (mkOut (result_of_outcome o) st1 sc' t1 tr1) in
   match generic_retry p attempt o with
   | DPanic => Done (mkOut RPanic st1 sc' t1 tr1)
-  | DFail => stop            (* return nil, err *)
+  | DFail => Done (mkOut (fail_result o) st1 sc' t1 tr1)   (* return nil, err *)
   | DStop => stop            (* return resp, respErr *)
   | DWait d =>
     if d <? 0 then stop
@@ -280,6 +310,30 @@ Definition round_trip (p : policy) (cn : cancel) (bd : body) (st : bstate) (sc :
   rt_loop (rt_fuel p) p cn bd st sc t 0 [].
 
 (* ------------------------------------------------------------------ *)
+(* Trace projections used by the statements and by the runner           *)
+
+Fixpoint attempts (tr : list event) : list (Z * str) :=
+  match tr with
+  | [] => []
+  | EAttempt t g :: r => (t, g) :: attempts r
+  | EPause _ _ :: r => attempts r
+  end.
+
+Fixpoint pauses (tr : list event) : list (Z * Z) :=
+  match tr with
+  | [] => []
+  | EPause t d :: r => (t, d) :: pauses r
+  | EAttempt _ _ :: r => pauses r
+  end.
+
+Fixpoint is_prefix (x y : str) : bool :=
+  match x, y with
+  | [], _ => true
+  | c :: x', d :: y' => (c =? d)%N && is_prefix x' y'
+  | _ :: _, [] => false
+  end.
+
+(* ------------------------------------------------------------------ *)
 (* auth.Client.Do over the retrying transport.  Only what matters for re-sending:
    first send; on 401 with a Basic or Bearer challenge rewind the body and send
    again (once for an empty token cache, possibly twice for a warm one). *)
@@ -305,8 +359,8 @@ Definition rewind_error (rw : rewind_result) : result :=
    names (but none for the request's own scope key): Do first re-sends with the
    cached token and, if that is refused too, fetches a fresh token and sends a third
    time.  Every re-send is preceded by rewindRequestBody. *)
-Definition auth_do (warm : bool) (p : policy) (cn : cancel) (bd : body) (sc : list beh) : auth_out :=
-  let o1 := round_trip p cn bd (init_state bd) sc 0 in
+Definition auth_do_at (warm : bool) (p : policy) (cn : cancel) (bd : body) (sc : list beh) (t0 : Z) : auth_out :=
+  let o1 := round_trip p cn bd (init_state bd) sc t0 in
   if challenged (o_res o1) then
     match rewind bd (o_st o1) with
     | RwOk st2 =>
@@ -323,36 +377,44 @@ Definition auth_do (warm : bool) (p : policy) (cn : cancel) (bd : body) (sc : li
     end
   else mkAuth (o_res o1) (o_trace o1) [] [] (o_time o1).
 
+Definition auth_do (warm : bool) (p : policy) (cn : cancel) (bd : body) (sc : list beh) : auth_out :=
+  auth_do_at warm p cn bd sc 0.
+
+(* a request that already carries Authorization, or a client that is not an auth client:
+   one send through the transport *)
+Definition plain_do_at (p : policy) (cn : cancel) (bd : body) (sc : list beh) (t0 : Z) : auth_out :=
+  let o := round_trip p cn bd (init_state bd) sc t0 in
+  mkAuth (o_res o) (o_trace o) [] [] (o_time o).
+
+Definition auth_attempts (a : auth_out) : list (Z * str) :=
+  attempts (a_first a) ++ attempts (a_second a) ++ attempts (a_third a).
+
+(* blobStore.Push: POST without a body starts the upload; on 202 the blob goes out in a PUT
+   that re-uses the Authorization header of the POST's last request, if it had one (then the
+   auth client passes it through unchanged); otherwise the PUT is an ordinary request of the
+   client.  Empty token cache. *)
+Record push_out := mkPush { u_res : result; u_post : auth_out; u_put : option auth_out; u_time : Z }.
+
+Definition no_body : body := mkBody KNone [].
+
+Definition accepted (r : result) : bool := match r with RResp c _ => c =? 202 | _ => false end.
+
+Definition blob_push (authc : bool) (p : policy) (cn : cancel) (bd : body) (sc : list beh) : push_out :=
+  let post := if authc then auth_do_at false p cn no_body sc 0 else plain_do_at p cn no_body sc 0 in
+  if accepted (a_res post) then
+    let sc' := skipn (length (auth_attempts post)) sc in
+    let authed := match attempts (a_second post) with [] => false | _ => true end in
+    let put := if authc && negb authed then auth_do_at false p cn bd sc' (a_time post)
+               else plain_do_at p cn bd sc' (a_time post) in
+    mkPush (a_res put) post (Some put) (a_time put)
+  else mkPush (a_res post) post None (a_time post).
+
 (* manifestStore.push: an *auth.Client and a body without GetBody => the content is
    buffered in memory and GetBody installed *)
 Definition manifest_push_body (is_auth_client : bool) (bd : body) : body :=
   match bk bd with
   | KOneShot => if is_auth_client then mkBody KReplay (bdata bd) else bd
   | _ => bd
-  end.
-
-(* ------------------------------------------------------------------ *)
-(* Trace projections used by the statements and by the runner           *)
-
-Fixpoint attempts (tr : list event) : list (Z * str) :=
-  match tr with
-  | [] => []
-  | EAttempt t g :: r => (t, g) :: attempts r
-  | EPause _ _ :: r => attempts r
-  end.
-
-Fixpoint pauses (tr : list event) : list (Z * Z) :=
-  match tr with
-  | [] => []
-  | EPause t d :: r => (t, d) :: pauses r
-  | EAttempt _ _ :: r => pauses r
-  end.
-
-Fixpoint is_prefix (x y : str) : bool :=
-  match x, y with
-  | [], _ => true
-  | c :: x', d :: y' => (c =? d)%N && is_prefix x' y'
-  | _ :: _, [] => false
   end.
 
 (* ------------------------------------------------------------------ *)
@@ -418,5 +480,5 @@ Definition accept_decision (guarded : bool) (maxretry minw maxw : Z) (e : eparam
 Definition table_backoff (tbl : list Z) (dflt : Z) (attempt : Z) (o : outcome) : bres :=
   BRet (nth (Z.to_nat attempt) tbl dflt).
 
-Definition table_policy (maxretry minw maxw : Z) (tbl : list Z) (dflt : Z) : policy :=
-  mkPolicy maxretry minw maxw default_predicate (table_backoff tbl dflt).
+Definition table_policy (pred : outcome -> pred_result) (maxretry minw maxw : Z) (tbl : list Z) (dflt : Z) : policy :=
+  mkPolicy maxretry minw maxw pred (table_backoff tbl dflt).
